@@ -212,9 +212,14 @@ func abstract(x any, depth int) Val {
 // constructor: way 1 = MakeFromArray (MakeFromMap for the associative kinds when the keys allow it),
 // way 2 = MakeFromSequence from a list or an array holding the items, way 3 = MakeFromSequence from a
 // collection of the same kind (a copy).  Way 0 is Build's own way (Make and one insertion per item).
+// Way 4 fills the collection, empties it with RemoveAll and fills it again (see buildRefilled).
 // Two values built from equal parts are the same value whichever constructors produced them.
 func BuildVia(v Val, way int) any {
-	if way%4 == 0 {
+	if way%5 == 4 {
+		return buildRefilled(v, way)
+	}
+	way = way%5 + 5*(way/5)
+	if way%5 == 0 {
 		return build(v, nil)
 	}
 	switch v.K {
@@ -245,7 +250,7 @@ func BuildVia(v Val, way int) any {
 	}
 	n := len(items)
 	asSequence := func() col.Sequential[any] {
-		if way%2 == 0 {
+		if way%5 == 2 {
 			return col.Array[any](notation).MakeFromArray(items)
 		}
 		return col.List[any](notation).MakeFromArray(items)
@@ -253,7 +258,7 @@ func BuildVia(v Val, way int) any {
 	switch v.CK {
 	case "Array":
 		C := col.Array[any](notation)
-		switch way % 4 {
+		switch way % 5 {
 		case 1:
 			return C.MakeFromArray(items)
 		case 2:
@@ -262,7 +267,7 @@ func BuildVia(v Val, way int) any {
 		return C.MakeFromSequence(C.MakeFromArray(items))
 	case "List":
 		C := col.List[any](notation)
-		switch way % 4 {
+		switch way % 5 {
 		case 1:
 			return C.MakeFromArray(items)
 		case 2:
@@ -271,7 +276,7 @@ func BuildVia(v Val, way int) any {
 		return C.MakeFromSequence(C.MakeFromArray(items))
 	case "Set":
 		C := col.Set[any](notation)
-		switch way % 4 {
+		switch way % 5 {
 		case 1:
 			return C.MakeFromArray(items)
 		case 2:
@@ -283,7 +288,7 @@ func BuildVia(v Val, way int) any {
 		if uint(n) > C.DefaultCapacity() {
 			return build(v, nil)
 		}
-		switch way % 4 {
+		switch way % 5 {
 		case 1:
 			return C.MakeFromArray(items)
 		case 2:
@@ -295,7 +300,7 @@ func BuildVia(v Val, way int) any {
 		if uint(n) > C.DefaultCapacity() {
 			return build(v, nil)
 		}
-		switch way % 4 {
+		switch way % 5 {
 		case 1:
 			return C.MakeFromArray(items)
 		case 2:
@@ -304,7 +309,7 @@ func BuildVia(v Val, way int) any {
 		return C.MakeFromSequence(C.MakeFromArray(items))
 	case "Catalog":
 		C := col.Catalog[any, any](notation)
-		switch way % 4 {
+		switch way % 5 {
 		case 1:
 			return C.MakeFromArray(assocs)
 		case 2:
@@ -313,13 +318,100 @@ func BuildVia(v Val, way int) any {
 		return C.MakeFromSequence(C.MakeFromArray(assocs))
 	case "Map":
 		C := col.Map[any, any](notation)
-		switch way % 4 {
+		switch way % 5 {
 		case 1:
 			return C.MakeFromArray(assocs)
 		case 2:
 			return C.MakeFromSequence(col.List[col.AssociationLike[any, any]](notation).MakeFromArray(assocs))
 		}
 		return C.MakeFromSequence(col.Catalog[any, any](notation).MakeFromArray(assocs))
+	}
+	panic("model: unknown collection kind " + v.CK)
+}
+
+// buildRefilled builds a collection that has a past: it held the same items (a catalog or map: the same keys
+// with other values), was emptied with RemoveAll and filled again.
+func buildRefilled(v Val, way int) any {
+	if v.K != Coll || v.CK == "Array" {
+		return BuildVia(v, way+1)
+	}
+	items := make([]any, len(v.Items))
+	for i, x := range v.Items {
+		items[i] = BuildVia(x, way+1)
+	}
+	keys := make([]any, len(v.Pairs))
+	values := make([]any, len(v.Pairs))
+	for i, p := range v.Pairs {
+		keys[i], values[i] = BuildVia(p.Key, way+1), BuildVia(p.Value, way+1)
+	}
+	n := len(items)
+	switch v.CK {
+	case "List":
+		c := col.List[any](notation).Make()
+		for round := 0; round < 2; round++ {
+			for _, x := range items {
+				c.AppendValue(x)
+			}
+			if round == 0 {
+				c.RemoveAll()
+			}
+		}
+		return c
+	case "Set":
+		c := col.Set[any](notation).Make()
+		for round := 0; round < 2; round++ {
+			for _, x := range items {
+				c.AddValue(x)
+			}
+			if round == 0 {
+				c.RemoveAll()
+			}
+		}
+		return c
+	case "Stack":
+		C := col.Stack[any](notation)
+		c := C.MakeWithCapacity(max(C.DefaultCapacity(), uint(n)))
+		for round := 0; round < 2; round++ {
+			for i := n - 1; i >= 0; i-- {
+				c.AddValue(items[i])
+			}
+			if round == 0 {
+				c.RemoveAll()
+			}
+		}
+		return c
+	case "Queue":
+		C := col.Queue[any](notation)
+		c := C.MakeWithCapacity(max(C.DefaultCapacity(), uint(n)))
+		for round := 0; round < 2; round++ {
+			for _, x := range items {
+				c.AddValue(x)
+			}
+			if round == 0 {
+				c.RemoveAll()
+			}
+		}
+		return c
+	case "Catalog":
+		c := col.Catalog[any, any](notation).Make()
+		for i := len(keys) - 1; i >= 0; i-- {
+			c.SetValue(keys[i], "an earlier value")
+		}
+		c.RemoveAll()
+		for i := range keys {
+			c.SetValue(keys[i], values[i])
+		}
+		return c
+	case "Map":
+		c := col.Map[any, any](notation).Make()
+		for i := range keys {
+			c.SetValue(keys[i], "an earlier value")
+		}
+		c.RemoveAll()
+		for i := range keys {
+			c.SetValue(keys[i], values[i])
+		}
+		return c
 	}
 	panic("model: unknown collection kind " + v.CK)
 }
